@@ -1305,7 +1305,7 @@ var propPrefix = regexp.MustCompile(`^(C[0-9]{2,3})\.`)
 // frame obligations go to the contract's frameprop; everything else to the contract's properties.
 func (x *Exec) attribute(fr *Frame, kind, label string) []string {
 	if m := propPrefix.FindStringSubmatch(label); m != nil {
-		return []string{m[1]}
+		return append([]string{m[1]}, x.db.Relies[m[1]]...)
 	}
 	c := fr.contract
 	if c == nil && x.rootFrame != nil {
